@@ -4,10 +4,13 @@ from contracts import noise
 
 PROPERTY = "C03"
 LEVEL = "proof"
+BOUNDED = [{"function": "whole Noise session against the real noise library as responder", "engine": "native enumeration", "bound": "hello++handshake++3 data frames, all segmentations into <= 3 chunks on a stride-3 grid (stride 1 in the thorough tier), names present/absent"}]
 ASSUMPTIONS = ["A-CRYPTO: ChaCha20-Poly1305 and the noiseprotocol state machine are idealised (assumed contracts); conformance of those libraries is not verified",
                "A-PY, A-TYPES, A-SPECTERM", "A-LOOP: an exception escaping data_received makes the transport call connection_lost(exc)"]
 
 
 def targets(eng):
-    return noise.targets_for(eng, ["__init__", "connection_made", "_setup_proto", "_send_hello_handshake", "_handle_hello", "_handle_handshake", "_handle_frame", "_handle_closed",
+    from contracts import native_noise
+    return [ground_target("bounded:noise-session", native_noise.bounded_noise_obligations,
+                          functions=["aioesphomeapi._frame_helper.noise.APINoiseFrameHelper (whole session, bounded)"])] + noise.targets_for(eng, ["__init__", "connection_made", "_setup_proto", "_send_hello_handshake", "_handle_hello", "_handle_handshake", "_handle_frame", "_handle_closed",
                                    "data_received", "lemmas"], ["C03"])
